@@ -632,3 +632,5 @@ def replay(case):
                 f'{g!r}, unpickler reached {proxy.loads_calls} time(s)')
     finally:
         ch.pickle = real_pickle
+
+MANIFEST['text'] += ' Octal-looking plain values, equal-valued signed payloads of different type one after the other, and forged cookies presented to a debug-mode application are covered.'
